@@ -1112,6 +1112,14 @@ package gohlslib
 //@        && callarg("dateTimeOfPreloadHint", calls("dateTimeOfPreloadHint") - 1, 0) == pl
 //@ end
 
+// C11: a relative URI of a playlist is resolved against the playlist's own URL (RFC 3986), never used as is
+//@ func clientAbsoluteURL
+//@   props C09 C11
+//@   nosafety
+//@   ensures result1 == nil ==> (calls("url.Parse") == 1 && callarg("url.Parse", 0, 0) == relative && calls("url.URL.ResolveReference") == 1
+//@        && callarg("url.URL.ResolveReference", 0, 0) == base && callarg("url.URL.ResolveReference", 0, 1) == callres("url.Parse", 0) && result0 == callres("url.URL.ResolveReference", 0))
+//@ end
+
 // ---------------------------------------------------------------------------------------
 // C10 / C11 / C13: client (sequential logic; goroutines, channels and HTTP are outside the VCs)
 
